@@ -386,8 +386,7 @@ func (l *Line) Sprintf(name string, value interface{}) *Line {
 // copied from time/time.go funcion fmtInt()
 func (l *Line) printInt(v uint32) *Line {
 	if v == 0 {
-		l.buffer[l.index] = '0'
-		l.index++
+		l.appendByte('0')
 	} else {
 		i := 0
 		n := v
@@ -396,6 +395,9 @@ func (l *Line) printInt(v uint32) *Line {
 			n /= 10
 		}
 
+		if l.index+i > len(l.buffer) { // no room for the digits: drop the number
+			return l
+		}
 		l.index = l.index + i
 		i = l.index - 1
 		for v > 0 {
@@ -465,11 +467,9 @@ func (l *Line) Uint16Hex(name string, value uint16) *Line {
 
 // Int appends a int to the line
 func (l *Line) Int(name string, value int) *Line {
-	l.buffer[l.index] = ' '
-	l.index++
+	l.appendByte(' ')
 	l.index = l.index + copy(l.buffer[l.index:], name)
-	l.buffer[l.index] = '='
-	l.index++
+	l.appendByte('=')
 	tmp := make([]byte, 0, 24)                     // zero allocation
 	tmp = strconv.AppendInt(tmp, int64(value), 10) // zero allocation
 	l.index = l.index + copy(l.buffer[l.index:], tmp)
@@ -607,6 +607,9 @@ func (l *Line) IPArray(name string, value []net.IP) *Line {
 }
 
 func (l *Line) appendByte(value byte) {
+	if l.index >= len(l.buffer) { // the line is full (e.g. after a truncated array): drop, never index past the buffer
+		return
+	}
 	l.buffer[l.index] = value
 	l.index++
 }
